@@ -2819,6 +2819,76 @@ fn ord_hash<F: SimField>(xs: &[BigUint]) -> (bool, usize, usize, usize) {
     (ord_ok, bt.len(), hs.len(), want.len())
 }
 
+// ---------------------------------------------------------------------------
+// thread teardown: the "crash point" of a caller thread
+
+type TeardownSlot = std::sync::Arc<std::sync::Mutex<Vec<(&'static str, &'static str, String)>>>;
+
+/// Lives in a thread-local of the run's thread, registered before the library is first used there, so its
+/// destructor runs *after* those of any thread-local state the library created on that thread. A caller
+/// whose own clean-up code still decodes, encodes or parses at that point must get answers, not panics.
+struct TeardownProbe {
+    slot: TeardownSlot,
+}
+
+impl Drop for TeardownProbe {
+    fn drop(&mut self) {
+        let mut found: Vec<(&'static str, &'static str, String)> = Vec::new();
+        let mut e8 = [0u8; 32];
+        e8[0] = 8;
+        match catch_unwind(|| Encoding(e8).vartime_decompress().ok() == Some(Element::GENERATOR)) {
+            Ok(true) => {}
+            Ok(false) => found.push(("C02", "op=decode_at_thread_exit", "the basepoint encoding no longer decodes to the generator while the thread shuts down".into())),
+            Err(p) => found.push(("C02", "op=decode_at_thread_exit", panic_msg(p))),
+        }
+        match catch_unwind(|| (Element::GENERATOR + Element::GENERATOR - Element::GENERATOR).vartime_compress().0 == e8) {
+            Ok(true) => {}
+            Ok(false) => found.push(("C03", "op=encode_at_thread_exit", "the generator no longer encodes to 08 00..00 while the thread shuts down".into())),
+            Err(p) => found.push(("C03", "op=encode_at_thread_exit", panic_msg(p))),
+        }
+        match catch_unwind(|| Fq::from_le_bytes_mod_order(&[1u8; 40]) == Fq::from_le_bytes_mod_order(&[1u8; 40]) && Fq::from(7u64).to_string() == "7") {
+            Ok(true) => {}
+            Ok(false) => found.push(("C11", "op=field_conversion_at_thread_exit", "field conversions disagree while the thread shuts down".into())),
+            Err(p) => found.push(("C11", "op=field_conversion_at_thread_exit", panic_msg(p))),
+        }
+        if let Ok(mut g) = self.slot.lock() {
+            g.extend(found);
+        }
+    }
+}
+
+thread_local! {
+    static TEARDOWN: std::cell::RefCell<Option<TeardownProbe>> = std::cell::RefCell::new(None);
+}
+
+/// One run on its own fresh thread (so that thread-local state of the code under test starts empty),
+/// with the teardown probe: violations found while the thread shuts down are added to the outcome.
+pub fn execute_isolated(run: &IoRun, logging: bool) -> Outcome {
+    if std::env::var_os("VERIF_NO_ISOLATE").is_some() {
+        return execute(run, logging);
+    }
+    let slot: TeardownSlot = Default::default();
+    let slot2 = slot.clone();
+    let mut out = simcore::par::isolated(move || {
+        TEARDOWN.with(|t| *t.borrow_mut() = Some(TeardownProbe { slot: slot2 }));
+        execute(run, logging)
+    });
+    // the thread has been joined: every thread-local destructor has run
+    let found = std::mem::take(&mut *slot.lock().unwrap());
+    if found.is_empty() {
+        *out.probes.entry("library_answered_during_thread_teardown").or_insert(0) += 1;
+    }
+    for (prop, key, detail) in found {
+        out.viols.push(Viol {
+            prop,
+            inv: "teardown",
+            key: key.into(),
+            detail,
+        });
+    }
+    out
+}
+
 pub fn execute(run: &IoRun, logging: bool) -> Outcome {
     let mut ctx = Ctx {
         out: Outcome::default(),
